@@ -129,6 +129,24 @@ pub fn witness_specs() -> Vec<HSpec> {
     ]
 }
 
+/// witness of the flag `triplefee` (a fixed fee-paying triple history, independent of the run's seed)
+pub fn nft_fee_witness() -> HSpec {
+    HSpec {
+        gp: 4,
+        len: 18,
+        fee: 4000,
+        gen: vec![(9, 1_000_000), (9, 2_000_000), (1, 50_000_000), (2, 60)],
+        pool: vec![],
+        fixed_sides: true,
+        p_spend: 0,
+        gt_rand: false,
+        prune: 1_000_000,
+        fork: None,
+        seed: 951,
+        name: "nftfee-w".to_string(),
+    }
+}
+
 pub fn cases(seed: u64, tier: &str) -> Vec<HSpec> {
     let mut v = vec![];
     // monitor-only: a bound triple carried around the window three times (see run_nft_history)
@@ -146,6 +164,23 @@ pub fn cases(seed: u64, tier: &str) -> Vec<HSpec> {
             fork: None,
             seed: seed.wrapping_add(900 + i as u64),
             name: format!("nft-{}", i),
+        });
+    }
+    // the same with a fee-paying transaction in every block, so that the rebroadcast of the triple is charged a fee
+    for (i, gp) in [4u64, 6].iter().enumerate() {
+        v.push(HSpec {
+            gp: *gp,
+            len: 3 * (gp + 1) + 3,
+            fee: 4000 + 1000 * i as u64,
+            gen: vec![(9, 1_000_000), (9, 2_000_000), (1, 50_000_000), (2, 60)],
+            pool: vec![],
+            fixed_sides: true,
+            p_spend: 0,
+            gt_rand: false,
+            prune: 1_000_000,
+            fork: None,
+            seed: seed.wrapping_add(950 + i as u64),
+            name: format!("nftfee-{}", i),
         });
     }
     // corpus first
@@ -952,6 +987,7 @@ async fn run_nft_history(spec: &HSpec, emit: &mut dyn FnMut(&str, &str)) {
             }
         }
     };
+    let ks = Keys::new();
     let is_triple = |v: &[Slip], j: usize| j + 2 < v.len() + 0 && v[j].slip_type == SlipType::Bound && v[j + 1].slip_type != SlipType::Bound && v[j + 2].slip_type == SlipType::Bound;
     // (block id of creation, the three slips) of the live triple
     let mut live: Option<(u64, [Slip; 3])> = None;
@@ -960,7 +996,18 @@ async fn run_nft_history(spec: &HSpec, emit: &mut dyn FnMut(&str, &str)) {
     for n in 2..=spec.len {
         let tip = chain.last().unwrap().clone();
         let ts = tip.timestamp + 2 * HEARTBEAT + 1;
-        let txs = if n == 2 { vec![nft_tx.clone()] } else { vec![] };
+        let mut txs = if n == 2 { vec![nft_tx.clone()] } else { vec![] };
+        if spec.fee > 0 && n >= 3 {
+            // a fee-paying payment of key 1 to itself: the next block's rebroadcasts are charged size x this block's fee per byte
+            let refs: Vec<&Block> = chain.iter().collect();
+            let mut view = spendable_view(&ks, &refs);
+            view.retain(|u| u.owner == 1 && u.slip.block_id + gp >= n && u.slip.block_id + gp + 1 != n && u.slip.slip_type != SlipType::Bound && u.slip.amount > spec.fee + 1000);
+            view.sort_by_key(|u| (u.slip.amount, u.slip.block_id, u.slip.tx_ordinal, u.slip.slip_index));
+            if let Some(u) = view.pop() {
+                txs.push(mk_tx(&[u.slip.clone()], 1, &[(1, u.slip.amount - spec.fee)], vec![n as u8], ts));
+                em.hist("nft:fee-paying-transaction");
+            }
+        }
         let gt = Some(gt_tx(&mut rng, &tip, 1, ts));
         let b = match create_on(&node, tip.hash, ts, 1, txs, gt).await {
             Ok(b) => b,
@@ -998,8 +1045,44 @@ async fn run_nft_history(spec: &HSpec, emit: &mut dyn FnMut(&str, &str)) {
                     }
                 }
                 seen.sort();
-                em.e("O", &format!("scan {}", if types.is_empty() { "-".to_string() } else { types.join(",") }));
-                em.e("I", &format!("groups={}", seen.iter().map(|x| x.1).collect::<String>()));
+                // (a group whose payload cannot pay the rebroadcast fee is cut all the same but leaves no transaction: the cut is
+                // visible in the block only when every collected payload can pay; the amounts are compared below in every case)
+                let k0 = multiplier_k(gp, &tip) as u128;
+                let fee0 = src.get_serialized_size() as u128 * tip.avg_fee_per_byte as u128;
+                if outs.iter().all(|sl| sl.slip_type == SlipType::Bound || sl.amount as u128 * (1 + k0) > fee0) {
+                    em.e("O", &format!("scan {}", if types.is_empty() { "-".to_string() } else { types.join(",") }));
+                    em.e("I", &format!("groups={}", seen.iter().map(|x| x.1).collect::<String>()));
+                } else {
+                    em.hist("nft:scan-not-visible:payload-below-fee");
+                }
+                // the AMOUNTS of the groups against `Saito.AtrScan.acct` (multiplier 1 only: no treasury payout, so the 5% cap
+                // cannot apply): per rebroadcast group the payload amount that comes back
+                let k = multiplier_k(gp, &tip);
+                let fee = src.get_serialized_size() as u64 * tip.avg_fee_per_byte;
+                em.hist(&format!("nft:acct:{}:{}", if k == 0 { "multiplier-1" } else { "multiplier>1-skipped" }, if fee > 0 { "fee>0" } else { "fee=0" }));
+                if k == 0 {
+                    let tas: Vec<String> = outs.iter().map(|sl| format!("{}:{}", sl.slip_type as u8, sl.amount)).collect();
+                    let mut back: Vec<(usize, u64)> = vec![];
+                    for t in atr_txs(&b) {
+                        if let Some(pos) = outs.iter().position(|sl| ident(sl) == ident(&t.from[0])) {
+                            let pi = if t.from.len() == 3 { 1 } else { 0 };
+                            back.push((pos, t.to[pi].amount));
+                            // direct monitor (property text: value plus treasury payout minus the rebroadcast fee)
+                            let a = outs[pos + pi].amount;
+                            if t.to.len() > pi && a > fee && t.to[pi].amount != a - fee {
+                                em.fail(
+                                    &format!("C13/nft/payload-not-value-minus-fee/{}", if pi == 1 { "triple" } else { "single" }),
+                                    &format!("block {}: the {} rebroadcast of an output worth {} (multiplier 1, rebroadcast fee {} = {} bytes x {} per byte) comes back worth {} instead of {}; the block books total_fees_atr {}",
+                                        n, if pi == 1 { "bound-triple" } else { "single-output" }, a, fee, src.get_serialized_size(), tip.avg_fee_per_byte, t.to[pi].amount, a - fee, b.total_fees_atr),
+                                    &replay,
+                                );
+                            }
+                        }
+                    }
+                    back.sort();
+                    em.e("O", &format!("acct 1 {} {}", fee, if tas.is_empty() { "-".to_string() } else { tas.join(",") }));
+                    em.e("I", &format!("back=[{}]", back.iter().map(|x| x.1.to_string()).collect::<Vec<_>>().join(",")));
+                }
             }
         }
         let mut groups = 0;
@@ -1042,7 +1125,11 @@ async fn run_nft_history(spec: &HSpec, emit: &mut dyn FnMut(&str, &str)) {
             wraps_seen += 1;
             em.hist(&format!("nft:wrap-{}", wraps_seen.min(3)));
             let k = multiplier_k(gp, &tip);
-            let dust = live.as_ref().map(|(_, tr)| (tr[1].amount as u128) * (1 + k as u128) == 0).unwrap_or(false);
+            // too small to pay the rebroadcast fee (size of the transaction that holds it x the previous block's average fee per byte)
+            let dust = live.as_ref().map(|(at, tr)| {
+                let fee = chain.get((*at - 1) as usize).map(|bl| bl.transactions.as_slice()).unwrap_or(&[]).iter().find(|t| t.to.iter().any(|sl| ident(sl) == ident(&tr[0]))).map(|t| t.get_serialized_size() as u128 * tip.avg_fee_per_byte as u128).unwrap_or(0);
+                (tr[1].amount as u128) * (1 + k as u128) <= fee
+            }).unwrap_or(false);
             if groups != 1 && !dust {
                 em.fail("C13/nft/triple-not-handled-exactly-once", &format!("block {}: the live triple left the window and {} rebroadcast transactions carry it", n, groups), &replay);
                 return;
@@ -1477,5 +1564,18 @@ pub fn calibrate() -> String {
             }
         }
     }
-    format!("key={} cap={} hash={} window={} txv={}", key, cap, hashf, window, rt.block_on(tx_verdict_witness()))
+    // triplefee: the committed witness history (a bound triple leaving the window while the average fee per byte is above 0):
+    // does the payload come back worth value minus fee (1), or does the block create the fee — payload back at full value,
+    // check_total_supply panics (0)?
+    let mut triplefee = 1u8;
+    {
+        let spec = nft_fee_witness();
+        let mut lines: Vec<(String, String)> = vec![];
+        let mut emit = |tag: &str, s: &str| lines.push((tag.to_string(), s.to_string()));
+        rt.block_on(run_history(&spec, &mut emit));
+        if lines.iter().any(|(t, s)| t == "M" && (s.starts_with("C13/nft/own-block-crashes-node") || s.starts_with("C13/nft/payload-not-value-minus-fee/triple"))) {
+            triplefee = 0;
+        }
+    }
+    format!("key={} cap={} hash={} window={} txv={} triplefee={}", key, cap, hashf, window, rt.block_on(tx_verdict_witness()), triplefee)
 }
